@@ -49,6 +49,11 @@ def make_cases(rng, tier, n):
             ops += [("fifo", victim[1] + b".pipe"), ("commit", strat, [])]          # commit fails at that entry, must terminate
             ops += [("rm", victim[1] + b".pipe")]
         ops += [("commit", strat, []), ("status", [])]
+        if strat == "c" and files and rng.random() < 0.7:
+            # a few entries modified far into the file, many unmodified ones handled by the same workers afterwards
+            for f in rng.sample(files, min(len(files), rng.choice([1, 3, 5]))):
+                ops.append(("write", f[1], "g:%d:%d" % (rng.randrange(7000, 9000), rng.choice([70001, 270000]))))
+            ops.append(("status", []))
         if fail == "missing_obj":
             ops += [("rmobj", rng.randrange(1000)), ("status", []), ("clone", []), ("checkout", rng.choice("lc"), False, [])]
         elif fail == "blocked" and files:
